@@ -320,7 +320,7 @@ fn gen_tok(rng: &mut Rng, shape: u64, prev: i64, lim: i64, negzero: bool) -> Val
 /// output in "rank units" for linear embeddings
 fn rank_units(subject: &str, emb: Emb, raw: &Result<Raw, String>) -> Value {
 	match raw {
-		Err(_) => json!(["panic"]),
+		Err(_) => json!([-999]), // panic sentinel (an integer, so that the trace spec can compare it)
 		Ok(Raw::I(i)) => json!([i]),
 		Ok(Raw::F(x)) => {
 			let s = emb.scale();
@@ -328,7 +328,7 @@ fn rank_units(subject: &str, emb: Emb, raw: &Result<Raw, String>) -> Value {
 			if u.fract() == 0.0 && u.abs() < 1e15 {
 				json!([u as i64])
 			} else {
-				json!(["float", x])
+				json!([-998, x])
 			}
 		}
 	}
